@@ -280,6 +280,16 @@ func renderHistory(rd *RunData, max int) []string {
 	for _, d := range rd.Debug {
 		ls = append(ls, line{d.Seq, d.S})
 	}
+	if debugPolicy {
+		for name, sn := range rd.Snaps {
+			d := fmt.Sprintf("    [snapshot %q] %s resident:", name, dumpRegions(sn))
+			for _, e := range sn.Resident {
+				d += fmt.Sprintf(" k%d:v=%d,w=%d,pw=%d,exp=%d,fl=%#x,inpolicy=%v", e.Key, e.Value, e.Weight, e.PolicyWeight, e.Expire, e.Flags, e.InPolicy)
+			}
+			d += fmt.Sprintf(" writechan=%d writebuf=%d", sn.WriteChanLen, sn.WriteBufLen)
+			ls = append(ls, line{rd.SnapAt[name], d})
+		}
+	}
 	sort.SliceStable(ls, func(i, j int) bool { return ls[i].seq < ls[j].seq })
 	var out []string
 	for _, l := range ls {
